@@ -153,9 +153,54 @@ Definition model_alt (syms : list bstr) (index : list N) (segs : list (list N)) 
                skipn (S k) segs)
               (a_ref a)).
 
+(* ---- the writer half: the model ENCODERS applied to the values read back must reproduce the
+   bytes the real writers put into the files (header, symbol table, every series entry, every
+   chunk record, every postings list, the postings offset table, the TOC) *)
+Definition bytes_at (bs : list N) (off : N) (expect : list N) : bool :=
+  bytes_eqb (sub bs off (blen expect)) expect.
+
+Definition writer_agree (index : list N) (segs : list (list N)) (bo : block_obs) : bool :=
+  match open_index crc32c index with
+  | RErr _ => false
+  | ROk r =>
+      let t := ir_toc r in
+      bytes_at index 0 (put_be32 magicIndex ++ [2]) &&
+      match enc_symbols crc32c (ir_syms r) with
+      | Some e => bytes_at index (t_symbols t) e
+      | None => false
+      end &&
+      forallb (fun s => match so_res s with
+                        | ROk (ls, cs) =>
+                            match enc_series_entry crc32c (ir_syms r) ls cs with
+                            | Some e => bytes_at index (so_ref s * 16) e
+                            | None => false
+                            end &&
+                            check_chunks true 0 0 cs &&
+                            forallb (fun '(cm, ch) =>
+                                       match ch with
+                                       | ROk (enc, data) =>
+                                           match nth_error segs (N.to_nat (cm_ref cm / 4294967296)) with
+                                           | Some seg => bytes_at seg (cm_ref cm mod 4294967296) (enc_chunk_record crc32c enc data)
+                                           | None => false
+                                           end
+                                       | RErr _ => true
+                                       end) (combine cs (so_chunks s))
+                        | RErr _ => true
+                        end) (bo_series bo) &&
+      forallb (fun x => match snd x, po_find (ir_po r) (fst (fst x)) (snd (fst x)) with
+                        | ROk refs, Some off => bytes_at index off (enc_postings crc32c refs)
+                        | ROk _, None => false
+                        | RErr _, _ => true
+                        end) (bo_postings bo) &&
+      bytes_at index (t_potab t) (enc_po_table crc32c (ir_po r)) &&
+      bytes_at index (blen index - tocLen) (enc_toc crc32c t) &&
+      forallb (fun seg => bytes_at seg 0 seg_header) segs
+  end.
+
 Definition agree (c : case) : bool :=
   let m := model_read (c_index c) (c_segs c) in
   rres_eqb bo_eqb m (c_open c) &&
+  match c_open c with ROk bo => writer_agree (c_index c) (c_segs c) bo | RErr _ => true end &&
   match m with
   | ROk bo => forallb (fun a => aobs_eqb (model_alt (bo_syms bo) (c_index c) (c_segs c) a) (a_obs a)) (c_alts c)
   | RErr _ => match c_alts c with [] => true | _ => false end
